@@ -13,9 +13,9 @@ var notApplicable = []naEntry{
 	{"C17", "A metamorphic relation between the outputs of different merge trees: purely a value property over runtime data; its structural ingredients are already those checked under C02/C03/C08, and no static rule in reach decides the equality itself."},
 	{"C01", "check under construction"}, {"C02", "check under construction"}, {"C03", "check under construction"},
 	{"C04", "check under construction"}, {"C07", "check under construction"},
-	{"C09", "check under construction"}, {"C10", "check under construction"},
+	{"C10", "check under construction"},
 	{"C11", "check under construction"}, {"C13", "check under construction"}, {"C14", "check under construction"},
-	{"C15", "check under construction"}, {"C16", "check under construction"},
+	{"C16", "check under construction"},
 }
 
 func init() {
@@ -65,5 +65,26 @@ func init() {
 		Explanation: "NIL-RESULT covers the (*Segment).dictionary call in DocsMatchingTerms (path-sensitive, phi-aware: the cached dictionary variable is a loop phi); ONEHIT-AWARE covers OrInto; FIELD-CACHE proves the dictionary reload is control-dependent on thisField != lastField and that lastField and the cached dictionary are updated together on that path only.",
 		NotCovered:  "equality of the returned set with the union (value property)",
 		Uses:        []RuleUse{{"NIL-RESULT", ""}, {"ONEHIT-AWARE", ""}},
+	})
+}
+
+func init() {
+	prop(&Property{
+		ID:          "C09",
+		Title:       "A segment is safe for concurrent and re-entrant readers, also during a merge",
+		Technique:   "static analysis: write census over all API-reachable functions + field-based provenance classes (what memory a write can reach) + lockset must-held regions + sync.Once/sync.Pool idiom rules",
+		Level:       "Static rules; write-side race freedom is decided: no function reachable from the read API or a merge writes memory another reader of the same segment can reach, except under the segment mutex or sync.Once — for every schedule and every nesting. Sound under the dependency table (zstd EncodeAll/DecodeAll stateless, vellum FST readers concurrent-safe, Data.Read does not write).",
+		Explanation: "SHARED-WRITE enumerates every write (field/element/map/whole-object store, destination-argument call) in every function reachable from the API roots, classifies the written object with an interprocedural field-based provenance analysis (Fresh / Caller / SharedSegment / Global / SegmentData) and requires shared targets to be written only with the mutex must-held or inside Once.Do; the fields written under the lock form the guarded set whose reads must hold the lock too. CLONE-DISCIPLINE derives the receiver-mutating docValueReader methods and proves each call site's receiver is a private clone. ZSTD-STATELESS, POOL-SCRATCH, NO-CALLBACK-UNDER-LOCK and SINGLETON-GUARD cover the shared codec, the per-call scratch context, re-entrancy under the lock and the shared empty singletons.",
+		NotCovered:  "races inside dependencies; value equivalence of concurrent and sequential observations beyond what absence of shared mutable state implies",
+		Uses:        []RuleUse{{"SHARED-WRITE", ""}, {"CLONE-DISCIPLINE", ""}, {"ZSTD-STATELESS", ""}, {"POOL-SCRATCH", ""}, {"NO-CALLBACK-UNDER-LOCK", ""}, {"SINGLETON-GUARD", ""}},
+	})
+	prop(&Property{
+		ID:          "C15",
+		Title:       "Reading, persisting and merging never modify a segment or the caller's bitmaps",
+		Technique:   "static analysis: interprocedural provenance classes over SSA (who owns a bitmap / a byte slice / a struct) checked at every mutating roaring call, every write sink and every store on the read/persist/merge path",
+		Level:       "Static rules sound for the named clauses under the roaring purity table (which must cover roaring's whole method set): caller bitmaps are never the receiver of a mutating call, segment bytes never reach a write sink, no store to segment or footer state on any API-reachable path.",
+		Explanation: "BITMAP-OWNERSHIP classifies the receiver of every mutating *roaring.Bitmap call (12 today) through parameters, fields, containers and call results: class Caller (Merge drops, PostingsList except, ReplaceActual argument and everything derived) is a violation; writes into caller-supplied bitmap slices likewise. DATA-READONLY shows bytes from Data.Read never reach a write sink. SEG-IMMUT shows no API-reachable function stores into an existing Segment, its footer or containers reachable from it (only the lock-guarded FST cache is exempt).",
+		NotCovered:  "mutation through dependency internals (roaring copy-on-write after FromBuffer is trusted)",
+		Uses:        []RuleUse{{"BITMAP-OWNERSHIP", ""}, {"DATA-READONLY", ""}, {"SEG-IMMUT", ""}, {"SINGLETON-GUARD", ""}},
 	})
 }
